@@ -212,6 +212,26 @@ func genC12(e *emitter, r *rng, tier string) {
 			}
 		}
 	}
+	// every shape of the options (rows / columns / labels on or off, trailing LF, leading decimal)
+	// with a fault at a few points: code that runs only on the error path must cope with all of them
+	for _, R := range []int{0, 10} {
+		for _, C := range []int{0, 5} {
+			for _, S := range []int{0, 1} {
+				for v := 1; v <= 3; v++ {
+					o := fmt.Sprintf("R%d.C%d.S%d.B%d", R, C, S, r.pick([]int{1, 3, 16}))
+					if v == 3 && r.coin(50) {
+						o += fmt.Sprintf(".T%d.L%d", r.intn(2), r.intn(2))
+					}
+					var stmts []string
+					for _, k := range []int{0, 1, 7, 30, 31} {
+						stmts = append(stmts, fmt.Sprintf("fpr:0:r3~25,r40~44:%s:%d:%d", o, r.intn(3), k))
+					}
+					emitScriptLine(e, v, "G:-1:1:0", strings.Join(stmts, ";"))
+				}
+			}
+		}
+	}
+	e.count("C12.optionshapes")
 	// digits pulled after the fault: counting source, fault early in a long output
 	for i := 0; i < 30; i++ {
 		k := r.pick([]int{0, 1, 10, 100, 500})
